@@ -294,10 +294,10 @@ def big_body(rng, n):
 
 def gen_body(rng, allow_big=False):
     r = rng.random()
+    if allow_big:
+        return big_body(rng, rng.choice([131071, 131072, 131073, 140000, 262145]))
     if r < 0.12: return None
     if r < 0.22: return b''
-    if allow_big and r < 0.24:
-        return big_body(rng, rng.choice([131071, 131072, 131073, 140000, 262145]))
     return H.rbody(rng, rng.choice([1, 2, 3, 7, 16, 60, 300]))
 
 def spell(rng, name):
@@ -438,20 +438,20 @@ def gen_wire(rng, kind=None):
 def generate(rng, tier):
     quick = tier != 'thorough'
     cases = []
-    n = 130 if quick else 2500
+    n = 100 if quick else 2500
     for i in range(n):
         a = gen_req_args(rng, big=(i % (60 if quick else 200) == 7))
         cases.append(dict(kind='req', args=a, wf=True))
     for i in range(n):
         a = gen_resp_args(rng, big=(i % (60 if quick else 200) == 9))
         cases.append(dict(kind='resp', args=a, wf=True))
-    for i in range(50 if quick else 1000):
+    for i in range(40 if quick else 1000):
         if rng.random() < 0.5:
             cases.append(dict(kind='req', args=damage_args(rng, gen_req_args(rng), 'req'), wf=False))
         else:
             cases.append(dict(kind='resp', args=damage_args(rng, gen_resp_args(rng), 'resp'), wf=False))
     # rebuild of parsed messages
-    for i in range(150 if quick else 3000):
+    for i in range(110 if quick else 3000):
         d = gen_wire(rng)
         opts = dict(disable=[], for_proxy=False, host=None)
         r = rng.random()
@@ -465,14 +465,21 @@ def generate(rng, tier):
         cases.append(dict(kind='rebuild', ptype=d['ptype'], raw=d['raw'], opts=opts, wf=(opts == dict(disable=[], for_proxy=False, host=None)),
                           fp=bool(opts['for_proxy'] and d.get('host') and d.get('port')),
                           meta=dict(framing=d['framing'], body=d['body'], nheaders=len(d['headers']))))
-    for i in range(60 if quick else 1200):
+    # a chunked body larger than DEFAULT_BUFFER_SIZE: received as one chunk, rebuilt as two
+    for nbig, pt_ in ((140000, 1), (131073, 2)) if quick else ((140000, 1), (131073, 2), (262145, 1), (131072, 2)):
+        bb = big_body(rng, nbig)
+        head = (b'POST /big HTTP/1.1\r\nHost: a\r\n' if pt_ == 1 else b'HTTP/1.1 200 OK\r\n') + b'Transfer-Encoding: chunked\r\n\r\n'
+        cases.append(dict(kind='rebuild', ptype=pt_, raw=head + b'%x\r\n' % nbig + bb + b'\r\n0\r\n\r\n',
+                          opts=dict(disable=[], for_proxy=False, host=None), wf=True, fp=False,
+                          meta=dict(framing='chunked', body=bb, nheaders=2 if pt_ == 1 else 1)))
+    for i in range(45 if quick else 1200):
         d = H.gen_message(rng)
         raw = mutate(rng, d['raw'])
         if rng.random() < 0.3: raw = mutate(rng, raw)
         if not raw: continue
         cases.append(dict(kind='rebuild', ptype=d['ptype'], raw=raw, opts=dict(disable=[], for_proxy=rng.random() < 0.2, host=None), wf=False, meta=None))
     # update_body
-    for i in range(70 if quick else 1200):
+    for i in range(50 if quick else 1200):
         d = gen_wire(rng)
         if d['framing'] == 'none' and rng.random() < 0.7:
             continue
@@ -484,7 +491,7 @@ def generate(rng, tier):
         cases.append(dict(kind='update', ptype=d['ptype'], raw=raw, new_body=nb, ctype=rng.choice([b'application/json', b'text/plain']),
                           meta=dict(framing=d['framing'], ce=ce)))
     # chunked streams for the reference decoder
-    for i in range(80 if quick else 1500):
+    for i in range(60 if quick else 1500):
         body = rng.choice([b'', H.rbody(rng, rng.choice([1, 3, 17, 80]))])
         wire, _ = H.chunk_layout(rng, body)
         tail = rng.choice([b'', b'', b'xyz', b'\r\n', b'0\r\n\r\n', b'GET / HTTP/1.1\r\n\r\n'])
@@ -492,7 +499,7 @@ def generate(rng, tier):
         if rng.random() < 0.6:
             cases.append(dict(kind='dechunk', raw=mutate(rng, wire + tail), meta=None))
     # to_chunks
-    for i in range(40 if quick else 400):
+    for i in range(30 if quick else 400):
         body = rng.choice([b'', H.rbody(rng, rng.randint(1, 70))])
         cases.append(dict(kind='tochunks', body=body, k=rng.choice([1, 2, 3, 7, 15, 16, 17, 64, 255, 256, 4096, 131072])))
     cases.append(dict(kind='tochunks', body=b'abc', k=0))
@@ -613,6 +620,9 @@ def coq_term(case, out):
         ts = [t, wf_term(case['ptype'], case['raw'])]
         if 'raw' in out:
             ts.append(wf_term(case['ptype'], out['raw']))
+        if case.get('dom', case['wf']):
+            # the parser state of a generator-well-formed wire message lies inside the (decidable) domain of C15_rebuild_stable_*_bool
+            ts.append('BRebuildDom %s %s' % (pt(case['ptype']), cbytes(case['raw'])))
         return ts
     if k == 'update':
         gz = out.get('gz', {}).get('out', b'')
